@@ -67,9 +67,21 @@ def collect_traces(run: Run):
     return traces, info
 
 
+def _selftest_traces():
+    """Two synthetic streams that bind the trace machinery: length + time must be STUCK, length + length ACCEPTed."""
+    from .compile_dims import ZERO_DIM, _leaf, _op
+    length = [[1, 1]] + ZERO_DIM[1:]
+    time = ZERO_DIM[:2] + [[1, 1]] + ZERO_DIM[3:]
+    bad = [_leaf(d=length), _leaf(d=time), _op("add", 2), _leaf(d=length), _op("rel", 2)]
+    good = [_leaf(d=length), _leaf(d=length), _op("add", 2), _leaf(d=length), _op("rel", 2)]
+    return [{"tid": "__selftest_bad__", "ev": bad}, {"tid": "__selftest_good__", "ev": good}]
+
+
 def validate(run: Run, sc, traces, info) -> None:
+    traces = list(traces)
     path = sc / "c01_traces.json"
-    path.write_text(json.dumps(traces))
+    selftest = _selftest_traces()
+    path.write_text(json.dumps(traces + selftest))
     cfg = write_cfg(sc / "c01_trace.cfg", init="TInit", next_="TStep", invariants=["Accepted", "Stuck"],
                     constants={"MaxLen": 0, "LeafNames": set(), "OpNames": set()})
     res = run_tlc("HomogeneityTrace", cfg, sc, workers=1, env={"TRACE_FILE": str(path)}, allow_violation=False)
@@ -77,6 +89,10 @@ def validate(run: Run, sc, traces, info) -> None:
     verdict = {}
     for v in res.printed:
         verdict.setdefault(v[1], []).append(v)
+    st = {k: verdict.get(k, [[None]])[0][0] for k in ("__selftest_bad__", "__selftest_good__")}
+    if st != {"__selftest_bad__": "STUCK", "__selftest_good__": "ACCEPT"}:
+        raise RuntimeError(f"self-test of the trace specification failed: {st}")
+    run.coverage["selftest"] = "length + time rejected at the sum node, length + length accepted (binding of HomogeneityTrace)"
     nodes = 0
     for tr in traces:
         tid = tr["tid"]
